@@ -5,4 +5,4 @@ Extraction "print_model.ml"
   std_cfg osmt_cfg lex read_symbol read_sexps norm_sexp quote_symbol legal_char
   faithful repaired protectName hasQuotableChars isReservedWord sortToString symToString print_term
   builder_definition default_definition resolve_clashes def_header_const def_header_fun
-  assignment_text core_names_text echo ast_sexp dump_sort_decl dump_decl formal_base dec term_sexp.
+  assignment_text core_names_text echo ast_sexp dump_sort_decl dump_decl formal_base dec term_sexp create_params.
